@@ -236,25 +236,14 @@ structure Output where
 /-- `Script::occupied_capacity` -/
 def scriptOccupied (args : Nat) : Option Nat := capBytes (args + SCRIPT_FIXED_BYTES)
 
-/-- `CellOutput::occupied_capacity(data_capacity)` in the code's order of additions -/
+/-- `CellOutput::occupied_capacity(data_capacity)`: the code's chain of `and_then`s
+(`Option.bind`; `none` = `CapacityError::Overflow`), in the code's order of additions -/
 def occupied (o : Output) (dataCap : Nat) : Option Nat :=
-  match capBytes CAPACITY_FIELD_BYTES with
-  | none => none
-  | some c8 =>
-    match safeAdd c8 dataCap with
-    | none => none
-    | some x =>
-      match scriptOccupied o.lockArgs with
-      | none => none
-      | some l =>
-        match safeAdd l x with
-        | none => none
-        | some x =>
-          match (match o.typeArgs with
-            | none => some 0
-            | some a => scriptOccupied a) with
-          | none => none
-          | some t => safeAdd t x
+  ((capBytes CAPACITY_FIELD_BYTES).bind fun x => safeAdd x dataCap).bind fun x =>
+    ((scriptOccupied o.lockArgs).bind fun y => safeAdd y x).bind fun x =>
+      (match o.typeArgs with
+        | none => some 0
+        | some a => scriptOccupied a).bind fun y => safeAdd y x
 
 inductive CapV where
   | ok
@@ -272,15 +261,11 @@ def sumCapsL : Nat → List Nat → Option Nat
     | none => none
     | some s => sumCapsL s rest
 
-/-- `output.is_lack_of_capacity(Capacity::bytes(data.len())?)?`: `none` = a checked operation
-overflowed (`CapacityError::Overflow`) -/
+/-- `output.is_lack_of_capacity(Capacity::bytes(data.len())?)?`
+(`is_lack_of_capacity` = `occupied_capacity(dc).map(|cap| cap > self.capacity())`): `none` = a checked
+operation overflowed (`CapacityError::Overflow`) -/
 def lackOfCapacity (o : Output) : Option Bool :=
-  match capBytes o.dataLen with
-  | none => none
-  | some dc =>
-    match occupied o dc with
-    | none => none
-    | some occ => some (decide (occ > o.capacity))
+  (capBytes o.dataLen).bind fun dc => (occupied o dc).map fun occ => decide (occ > o.capacity)
 
 /-- the output loop over the per-output results: first overflow / lack of capacity decides -/
 def checkLacks : Nat → List (Option Bool) → CapV
